@@ -275,6 +275,10 @@ class Grammar:
                             if "appkw" in P:
                                 yield (tb, ("app2", body, a1, a2, 1))  # second by keyword
                                 yield (tb, ("app2", body, a1, a2, 2))  # both by keyword, reversed
+                            if "appdef" in P:
+                                yield (tb, ("app2", body, a1, a2, 3))  # second parameter defaulted, not passed
+                                yield (tb, ("app2", body, a1, a2, 4))  # defaulted (to the first argument), passed positionally
+                                yield (tb, ("app2", body, a1, a2, 5))  # keyword-only with default, not passed
         # ---- ternary
         if "ifexp" in P and m >= 3:
             for n1, n2, n3 in self.splits(m, 3):
@@ -492,6 +496,12 @@ def render(term, names, ctx_names=()):
                 return f"(lambda {n1}, {n2}: {body})({a1}, {a2})"
             if t[4] == 1:
                 return f"(lambda {n1}, {n2}: {body})({a1}, {n2}={a2})"
+            if t[4] == 3:
+                return f"(lambda {n1}, {n2}={a2}: {body})({a1})"
+            if t[4] == 4:
+                return f"(lambda {n1}, {n2}={a1}: {body})({a1}, {a2})"
+            if t[4] == 5:
+                return f"(lambda {n1}, *, {n2}={a2}: {body})({a1})"
             return f"(lambda {n1}, {n2}: {body})({n2}={a2}, {n1}={a1})"
         if tag == "count":
             s = r(t[2], stack)
@@ -539,6 +549,22 @@ def type_str(t):
     if t[0] == "Dic":
         return "Dic{" + ",".join(f"{k}:{type_str(x)}" for k, x in t[1]) + "}"
     return str(t)
+
+
+def has_mode(term, tag, modes):
+    "does the term contain a node `tag` whose last field is one of modes"
+    if term[0] == tag and term[-1] in modes:
+        return True
+    for c in term[1:]:
+        if isinstance(c, tuple):
+            if c and isinstance(c[0], str) and c[0] in _TAGS:
+                if has_mode(c, tag, modes):
+                    return True
+            else:
+                for cc in c:
+                    if isinstance(cc, tuple) and cc and isinstance(cc[0], str) and cc[0] in _TAGS and has_mode(cc, tag, modes):
+                        return True
+    return False
 
 
 def has(term, tags):
